@@ -5,7 +5,7 @@ use crate::{
     error::{err, ErrorContext},
     fmt::{friendly, temporal},
     tz::Offset,
-    util::{escape, rangeint::TryRFrom, t},
+    util::{escape, rangeint::TryRFrom, round::increment, t},
     Error, RoundMode, Timestamp, Unit, Zoned,
 };
 
@@ -2480,7 +2480,23 @@ impl SignedDurationRound {
             ));
         }
         let nanos = t::NoUnits128::new_unchecked(dur.as_nanos());
-        let increment = t::NoUnits::new_unchecked(self.increment);
+        // As documented: the increment must be positive and, for units
+        // smaller than hours, divide evenly into (and be less than) the
+        // next highest unit. An increment of zero would otherwise divide
+        // by zero below.
+        let increment = if self.smallest == Unit::Hour {
+            if self.increment <= 0 {
+                return Err(err!(
+                    "rounding increment {increment} for hours must be \
+                     greater than zero",
+                    increment = self.increment,
+                ));
+            }
+            t::NoUnits::new_unchecked(self.increment)
+        } else {
+            increment::for_span(self.smallest, self.increment)?;
+            t::NoUnits::new_unchecked(self.increment)
+        };
         let rounded = self.mode.round_by_unit_in_nanoseconds(
             nanos,
             self.smallest,
